@@ -179,6 +179,16 @@ def directed_small_trees():
     for req, extra in ((1, [0xC4, 0x391]), (2, [0xDF, 0xE9]), (4, [0x663, 0xFF10]), (3, [0xC4, 0xDF]), (5, [0x391, 0x663])):
         out.append(c(len=1, allow=req, require=req, allowChars=extra))          # only the ASCII members satisfy the required class
         out.append(c(len=2, allow=0, require=req, allowChars=extra))
+    o = lambda t: [ord(x) for x in t]
+    # required sets whose members, sorted, spell a range ("!-@", the symbol class "!*-.@_"): the characters strictly between the
+    # neighbours of '-' are NOT members
+    out.append(c(len=2, require=8, allowChars=o(",+")))
+    out.append(c(len=2, allowChars=o("5+,"), requireSets=[o("!-@")]))
+    out.append(c(len=2, allowChars=o("bcd"), requireSets=[o("a-e"), o("]^[")]))
+    # a required set of more than 32 members in front of a small one; equal sets in front of a set with an excluded member
+    out.append(c(len=2, requireSets=[[0x4E00 + i for i in range(33)], o("0123456789")]))
+    out.append(c(len=2, requireSets=[o("ab"), o("ba"), o("c1")], excludeChars=o("1")))
+    out.append(c(len=2, allow=2, exclude=16, requireSets=[o("0O"), o("1Iab")]))          # an emptied set in front of a set that loses members
     for extra in ([10, 0xA0, ord("a")], [0xAD, 0x200D, ord("b"), 0xFFFD], [0xFEFF, 0xE000, 0x10FFFF, ord("c")], [9, 0x3000, 0x2028]):
         out.append(c(len=1, allowChars=extra))                                   # every listed character can be drawn
         out.append(c(len=2, allowChars=extra, requireSets=[extra[:1]]))
